@@ -389,6 +389,48 @@ def fam_tmodrop(seed, i):
     return sc
 
 
+def fam_rstimers(seed, i):
+    """C07 x C10: timers armed by one incarnation fall due while the next incarnation is still inside a slow started()
+    (or stopped() of the restart), or right after it: none of them may fire on the new incarnation; timers the new
+    incarnation arms itself run from its own started()."""
+    rng = random.Random(f"rstimers-{seed}-{i}")
+    sc = base("rstimers", seed, i, rng, horizon=rng.choice([10, 14]))
+    sc["idle_only"] = rng.random() < 0.6
+    tn = [0]
+
+    def timer_eff(lo=1, hi=3):
+        tn[0] += 1
+        return eff(rng.choice(["interval", "interval_with", "delayed_send", "delayed_send", "delayed_exec"]), rng.randint(lo, hi), f"t{tn[0]}")
+
+    sscr = [[Y] * rng.choice([0, 1]) + [timer_eff() for _ in range(rng.randint(1, 3))]]
+    for _ in range(2):
+        nxt = [eff("sleep", rng.randint(1, 5))] if rng.random() < 0.75 else [Y]
+        if rng.random() < 0.4:
+            nxt = nxt + [timer_eff()] if rng.random() < 0.5 else [timer_eff()] + nxt
+        sscr.append(nxt)
+    cfg = {"cap": rng.choice([-1, -1, 2]), "strat": rng.choice(["restart", "restart", "recreate"]), "sscr": sscr, "owning": False,
+           "pscr": rng.choice([[], [], [Y], [eff("sleep", rng.randint(1, 3))]]), "tscr": rng.choice([[], [], [Y]])}
+    main, handles = setup_main(rng, cfg, {"c1": "addr"}, rng.random() < 0.5)
+    sc["clients"]["main"] = main
+    h = "h_c1"
+    c1 = []
+    if rng.random() < 0.5:
+        c1.append({"op": "send", "h": h, "scr": rng.choice([[], [timer_eff(2, 4)], [Y]])})
+    if rng.random() < 0.4:
+        c1.append({"op": "sleep", "d": rng.randint(1, 2)})
+    c1.append({"op": "restart", "h": h})
+    c1.append({"op": "sleep", "d": rng.randint(1, 6)})
+    if rng.random() < 0.5:
+        c1.append({"op": rng.choice(["send", "call"]), "h": h, "scr": rng.choice([[], [Y], [timer_eff()]])})
+    if rng.random() < 0.4:
+        c1 += [{"op": "restart", "h": h}, {"op": "sleep", "d": rng.randint(1, 6)}]
+    c1.append({"op": "call", "h": h, "scr": []})
+    if rng.random() < 0.6:
+        c1 += [{"op": "stop", "h": h}, {"op": "await", "h": h}]
+    sc["clients"]["c1"] = c1
+    return sc
+
+
 def fam_timers(seed, i):
     """C10 (and the timer clause of C07): timers of mixed kinds, termination at any time by any cause."""
     rng = random.Random(f"timers-{seed}-{i}")
@@ -1012,4 +1054,4 @@ def fam_mix(seed, i):
     return sc
 
 
-FAMILIES = {"mix": fam_mix, "core": fam_core, "awaiters": fam_awaiters, "life": fam_life, "fail": fam_fail, "restart": fam_restart, "timeout": fam_timeout, "tmodrop": fam_tmodrop, "timers": fam_timers, "tree": fam_tree, "registry": fam_registry, "stream": fam_stream, "broker": fam_broker}
+FAMILIES = {"mix": fam_mix, "core": fam_core, "awaiters": fam_awaiters, "life": fam_life, "fail": fam_fail, "restart": fam_restart, "timeout": fam_timeout, "tmodrop": fam_tmodrop, "rstimers": fam_rstimers, "timers": fam_timers, "tree": fam_tree, "registry": fam_registry, "stream": fam_stream, "broker": fam_broker}
